@@ -13,18 +13,23 @@ def PC.notStarted : PC → Bool
   | .c1 | .c2 | .c3 | .f0 => true
   | _ => false
 
+/-- the caller's function is executing -/
+def PC.running : PC → Bool
+  | .f1 | .fp => true
+  | _ => false
+
 structure InvX (s : St) : Prop where
   ekey    : ∀ u, (s.pc u).owns = true → s.ekey (s.reg u) = s.key u
   nstart  : ∀ u, (s.pc u).notStarted = true → s.fstart (s.reg u) = none ∧ s.fend (s.reg u) = none
-  run1    : ∀ u, s.pc u = .f1 → s.fstart (s.reg u) ≠ none ∧ s.fend (s.reg u) = none
-  running : ∀ w, w < s.next → s.fstart w ≠ none → s.fend w = none → s.pc (s.owner w) = .f1 ∧ s.reg (s.owner w) = w
+  run1    : ∀ u, (s.pc u).running = true → s.fstart (s.reg u) ≠ none ∧ s.fend (s.reg u) = none
+  running : ∀ w, w < s.next → s.fstart w ≠ none → s.fend w = none → (s.pc (s.owner w)).running = true ∧ s.reg (s.owner w) = w
   tstart  : ∀ w a, s.fstart w = some a → a < s.now ∧ w < s.next
   tend    : ∀ w b, s.fend w = some b → b < s.now ∧ endsBefore (s.fstart w) b ∧ s.fstart w ≠ none
   disj    : ∀ c d a a', c ≠ d → s.ekey c = s.ekey d → s.fstart c = some a → s.fstart d = some a' →
               endsBefore (s.fend c) a' ∨ endsBefore (s.fend d) a
 
 theorem invX_init : InvX init := by
-  constructor <;> simp [init, PC.notStarted, PC.owns]
+  constructor <;> simp [init, PC.notStarted, PC.owns, PC.running]
 
 theorem flight_unique (h : Inv s) (u v : Tid) (hu : (s.pc u).inFlight = true) (hv : (s.pc v).inFlight = true)
     (hk : s.key u = s.key v) : u = v := by
@@ -39,7 +44,7 @@ theorem flight_unique (h : Inv s) (u v : Tid) (hu : (s.pc u).inFlight = true) (h
 
 macro "close_stepx" hs:ident : tactic =>
   `(tactic| (step_cases $hs:ident <;>
-      simp [upd, PC.owns, PC.notStarted] at * <;> grind [endsBefore_none, endsBefore_some]))
+      simp [upd, PC.owns, PC.notStarted, PC.running] at * <;> grind [endsBefore_none, endsBefore_some]))
 
 variable {s s' : St} {t : Tid} {x : Nat}
 
@@ -61,7 +66,7 @@ theorem nstart_step (h : Inv s) (hx : InvX s) (hs : step s t x = some s') :
   close_stepx hs
 
 theorem run1_step (h : Inv s) (hx : InvX s) (hs : step s t x = some s') :
-    ∀ u, s'.pc u = .f1 → s'.fstart (s'.reg u) ≠ none ∧ s'.fend (s'.reg u) = none := by
+    ∀ u, (s'.pc u).running = true → s'.fstart (s'.reg u) ≠ none ∧ s'.fend (s'.reg u) = none := by
   intro u hu
   have h1 := hx.run1 u
   have h2 := hx.nstart t
@@ -70,7 +75,7 @@ theorem run1_step (h : Inv s) (hx : InvX s) (hs : step s t x = some s') :
   close_stepx hs
 
 theorem running_step (h : Inv s) (hx : InvX s) (hs : step s t x = some s') :
-    ∀ w, w < s'.next → s'.fstart w ≠ none → s'.fend w = none → s'.pc (s'.owner w) = .f1 ∧ s'.reg (s'.owner w) = w := by
+    ∀ w, w < s'.next → s'.fstart w ≠ none → s'.fend w = none → (s'.pc (s'.owner w)).running = true ∧ s'.reg (s'.owner w) = w := by
   intro w hw h1 h2
   have h3 := hx.running w
   have h4 := h.owns t
@@ -115,12 +120,12 @@ theorem disj_step (h : Inv s) (hx : InvX s) (hs : step s t x = some s') :
       exfalso
       obtain ⟨r1, r2⟩ := hx.running e he hst hfe
       have kt := hx.ekey t (by simp [hpc, PC.owns])
-      have kl := hx.ekey (s.owner e) (by simp [r1, PC.owns])
-      have : s.owner e = t := flight_unique h _ _ (by simp [r1, PC.inFlight]) (by simp [hpc, PC.inFlight])
-        (by rw [← kl, r2, hke, kt])
+      have kl := hx.ekey (s.owner e) (by revert r1; cases s.pc (s.owner e) <;> simp [PC.running, PC.owns])
+      have : s.owner e = t := flight_unique h _ _ (by revert r1; cases s.pc (s.owner e) <;> simp [PC.running, PC.inFlight])
+        (by simp [hpc, PC.inFlight]) (by rw [← kl, r2, hke, kt])
       rw [this] at r1
       rw [hpc] at r1
-      cases r1
+      simp [PC.running] at r1
   have k1 := key c
   have k2 := key d
   have h5 := hx.tend c
